@@ -52,7 +52,9 @@ func (s *shardNodeReader) makeReader() (io.Reader, error) {
 		if err != nil {
 			return nil, err
 		}
-		if s.offset >= at+childSize {
+		if s.offset > at+childSize || (childSize > 0 && s.offset == at+childSize) {
+			// wholly before the offset; an empty child sitting exactly at the
+			// offset is kept so that a full read still visits every block
 			at += childSize
 			continue
 		}
